@@ -44,11 +44,10 @@ Definition astep (s : astate) (o : mop) : astate * option bool :=
     let k := N.succ (a_count s) in
     (mkA (a_bag s) (a_series s ++ [mkAS k period phase dur tag []]) k, Some true)
   | MRemove ev =>
-    if N.eqb (series_of ev) 0 then
-      match bag_remove ev (a_bag s) with
-      | Some bag' => (mkA bag' (a_series s) (a_count s), Some true)
-      | None => (s, Some false)                               (* unsuccessful: nothing changes *)
-      end
+    match bag_remove ev (a_bag s) with
+    | Some bag' => (mkA bag' (a_series s) (a_count s), Some true)     (* a stored interval *)
+    | None =>
+    if N.eqb (series_of ev) 0 then (s, Some false)            (* unsuccessful: nothing changes *)
     else
       match afind (series_of ev) (a_series s), st ev with
       | Some x, Some t =>
@@ -61,6 +60,7 @@ Definition astep (s : astate) (o : mop) : astate * option bool :=
         else (s, Some false)
       | _, _ => (s, Some false)
       end
+    end
   | MRemoveSeries ev =>
     if N.eqb (series_of ev) 0 then
       match bag_remove ev (a_bag s) with
